@@ -112,3 +112,27 @@ Proof.
   - intros x Hx. apply BD. rewrite Ed, Hx. reflexivity.
 Qed.
 End Told.
+
+(* PPPoE / IPCP: whatever the peer proposes, and in whatever order (a Nak'ed or rejected proposal first, a request
+   without an IP-Address option afterwards), the address the session records after the exchange is the one it had or
+   the one it was told; an acknowledged address IS the told one.  A proposal that was not acknowledged leaves nothing
+   behind. *)
+Lemma pi_ack_is_recorded st s a st' r v4 :
+  told_ok s -> s_ppp s = true -> In (st', OPi r v4) (step_pi st s a) ->
+  (exists b, st_sess st' = put_sess (pi_upd s v4 b) (st_sess st)) /\
+  (forall x, r = PiAck (Some x) -> v4 = Some x /\ s_told s = Some x) /\
+  ((forall x, r <> PiAck (Some x)) -> v4 = s_a4 s).
+Proof.
+  intros Ht Hp. destruct (Ht Hp) as [T0 _]. unfold step_pi, pi_res.
+  destruct (s_told s) as [t|] eqn:Et.
+  - destruct a as [x|].
+    + destruct (negb (t =? 0) && negb (x =? t)) eqn:E1; [|destruct (x =? 0) eqn:E2];
+        intros [E|[]]; inversion E; subst; (split; [eexists; reflexivity|split]);
+        try (intros y Hy; discriminate Hy); try (intros _; reflexivity).
+      * intros y Hy. inversion Hy; subst y. split; [reflexivity|].
+        destruct (N.eqb_spec t 0) as [->|Hn]; [exfalso; apply T0; reflexivity|].
+        destruct (N.eqb_spec x t) as [->|Hn2]; [reflexivity|]. simpl in E1. discriminate.
+      * intros H. exfalso. apply (H x). reflexivity.
+    + intros [E|[]]; inversion E; subst. split; [eexists; reflexivity|split]; [intros y Hy; discriminate Hy|reflexivity].
+  - intros [E|[]]; inversion E; subst. split; [eexists; reflexivity|split]; [intros y Hy; discriminate Hy|reflexivity].
+Qed.
